@@ -555,6 +555,13 @@ struct Harness {
         int tid = atoi(e->d_name);
         if (tid <= 0 || tid == myTid)
           continue;
+#if VERIF_TSAN
+        // ThreadSanitizer's own background thread wakes up every 100 ms for ever (its context-switch count never stands
+        // still), so with it in the picture no deadlock would ever be declared in this build. Threads that never ran a
+        // Galois hook and are not the main thread are not part of the execution under test: leave them out.
+        if (tid != (int)getpid() && !tidToIdx.count(tid))
+          continue;
+#endif
         Snap s;
         if (!readTask(tid, s.ts))
           continue;
